@@ -5,6 +5,7 @@ package ribhist
 
 import (
 	"fmt"
+	"github.com/openconfig/gribigo/server"
 	"sort"
 	"strings"
 
@@ -165,6 +166,10 @@ const (
 	NoHook        HookConfig = iota
 	HookAfterNIs             // all network instances exist when SetPostChangeHook is called
 	HookBeforeNIs            // the hook is registered first, network instances are added afterwards
+	// the RIB is the one of a real server built with server.New: the hook comes in as a server option, the second
+	// network instance through WithVRFs - options in both orders (what users of the server actually write)
+	HookServerOptVRFsFirst
+	HookServerOptHookFirst
 )
 
 // Options configures instances.
@@ -208,6 +213,21 @@ func New(o *Options) func() mc.Instance {
 		in := &inst{o: o, fold: ribx.NewModel(D, V), sent: map[uint64]*spb.AFTOperation{}, answered: map[uint64]string{}}
 		in.r = rib.New(D, opts...)
 		switch o.Hook {
+		case HookServerOptVRFsFirst, HookServerOptHookFirst:
+			in.hookFold = ribx.NewModel(D, V)
+			hook := server.WithPostChangeRIBHook(func(ot constants.OpType, ts int64, ni string, data ygot.ValidatedGoStruct) {
+				in.onHook(ot, ni, data)
+			})
+			sopts := []server.ServerOpt{server.WithVRFs([]string{V}), hook}
+			if o.Hook == HookServerOptHookFirst {
+				sopts = []server.ServerOpt{hook, server.WithVRFs([]string{V})}
+			}
+			if o.NoFwdRefs {
+				sopts = append(sopts, server.WithNoRIBForwardReferences())
+			}
+			srv, err := server.New(sopts...)
+			must(err)
+			in.r = srv.VerifRIB()
 		case HookAfterNIs:
 			must(in.r.AddNetworkInstance(V))
 			in.attachHook()
